@@ -247,17 +247,28 @@ def binomial_moments(res, gam, scn, d, rng):
             ys = np.asarray(gam.sample(scn['X'], scn['y'], quantity='y', sample_at_X=X, n_draws=N, n_bootstraps=1), dtype=float)
     finally:
         np.random.set_state(state)
-    var = mu * (1 - mu / L)
-    zm = np.abs(ys.mean(axis=0) - mu) / (np.sqrt(var / N) + 1e-12)
-    vrel = np.abs(ys.var(axis=0) - var) / (var + 1e-12)
+    # exact moments of Binomial(n = levels, p = mu/levels): variance n p q, fourth central moment n p q (1 + 3 (n - 2) p q).
+    # standard errors: mean sqrt(var/N); sample variance sqrt((mu4 - var^2)/N) (NOT the normal-theory sqrt(2/N) var: the response is very
+    # skewed when p is near 0 or 1).  2/N is added for the discreteness of rare events (one response off the mode moves both by ~1/N).
+    pr = mu / L
+    var = L * pr * (1 - pr)
+    mu4 = var * (1 + 3 * (L - 2) * pr * (1 - pr))
+    se_mean = np.sqrt(var / N)
+    se_var = np.sqrt(np.maximum(mu4 - var ** 2, 0.0) / N)
+    dm = np.abs(ys.mean(axis=0) - mu)
+    dv = np.abs(ys.var(axis=0) - var)
+    bad_m = dm > 7 * se_mean + 2.0 / N
+    bad_v = dv > 7 * se_var + var / N + 2.0 / N
     res.case(('binomial-moments', d['index']))
     res.count('binomial(levels=%d) moment test (20000 draws)' % int(L))
-    if zm.max() > 7 or (vrel[var > 1e-3] > 0.15).any() or ys.max() > L or ys.min() < 0:
-        k = int(np.argmax(zm))
-        viol(res, 'simulated binomial responses (real generator, coefficient draws pinned to coef_) do not have mean mu and variance mu (1 - mu/levels) (statistical test)', d,
-             dict(sample_mean=float(ys.mean(axis=0)[k]), sample_var=float(ys.var(axis=0)[k]), z=float(zm[k])), dict(mean=float(mu[k]), var=float(var[k]), levels=L),
+    if bad_m.any() or bad_v.any() or ys.max() > L or ys.min() < 0:
+        k = int(np.argmax(bad_m | bad_v)) if (bad_m | bad_v).any() else 0
+        viol(res, 'simulated binomial responses (real generator, coefficient draws pinned to coef_) do not have mean mu and variance mu (1 - mu/levels) '
+                  'within 7 standard errors (exact binomial second and fourth moments; statistical test)', d,
+             dict(sample_mean=float(ys.mean(axis=0)[k]), sample_var=float(ys.var(axis=0)[k]), z_mean=float(dm[k] / (se_mean[k] + 1e-300)),
+                  z_var=float(dv[k] / (se_var[k] + 1e-300)), min=float(ys.min()), max=float(ys.max())),
+             dict(mean=float(mu[k]), var=float(var[k]), se_mean=float(se_mean[k]), se_var=float(se_var[k]), levels=L),
              X_row=[float(x) for x in X[k]])
-
 
 def rejections(res, gam, scn, d, cls):
     X, y = scn['X'], scn['y']
